@@ -29,11 +29,11 @@ try:
     meta["suite_passes_with_change"] = rc == 0
     meta["ran"].append("go build ./... && go test -vet=off -count=1 ./...  (with change, demo absent) -> rc %d" % rc)
     shutil.copy(os.path.join(src, "seed_demo_test.go"), wt)
-    rc1, out1 = sh("go test -vet=off -count=1 -run 'TestSeedDemo$' .", cwd=wt)
+    rc1, out1 = sh("go test -vet=off -count=1 -run 'TestSeedDemo' .", cwd=wt)
     meta["demo_fails_with_change"] = rc1 != 0
     meta["ran"].append("go test -run TestSeedDemo (with change) -> rc %d" % rc1)
     sh("git apply -R %s/patch.diff" % os.path.abspath(src), cwd=wt)
-    rc2, out2 = sh("go test -vet=off -count=1 -run 'TestSeedDemo$' .", cwd=wt)
+    rc2, out2 = sh("go test -vet=off -count=1 -run 'TestSeedDemo' .", cwd=wt)
     meta["demo_passes_without_change"] = rc2 == 0
     meta["ran"].append("go test -run TestSeedDemo (without change) -> rc %d" % rc2)
     sh("git apply %s/patch.diff" % os.path.abspath(src), cwd=wt)
